@@ -481,6 +481,70 @@ theorem newStorage_spec (H : Bytes → Bytes) (text : Bytes) (h : tooLong text =
   · subst ht; rfl
   · simp [ht, reset, h]
 
+/-! ### Lookups that overlap resets -/
+
+/-- `Storage.Hashes` reads the shared map once: with the same map at every look-up of both loops
+the count-encode-cut computation is `hashes` on that map, and the cut never panics. -/
+theorem hashesLoads_snapshot (st : Store) (prefs : List Bytes) :
+    hashesLoads (List.replicate prefs.length st) (List.replicate prefs.length st) prefs =
+      some (hashes st prefs) := by
+  unfold hashesLoads
+  rw [encodeLoop_replicate, countLoop_replicate]
+  by_cases hp : prefs = []
+  · subst hp; rfl
+  · simp [hp]
+
+/-- **One lookup, one list version.**  `ops` is the whole history of resets of all storages and a
+`Hashes` call on storage `i` loads the shared map when the first `k` of them have stored theirs;
+the others may run during the call.  The call does not panic and its answer is exactly the
+digests, once per list line and per occurrence of the prefix, of the names listed by the last
+successful reset of storage `i` among those `k`: the answer of one version of the list, one that
+was in force during the call, and never a mixture of two. -/
+theorem hashes_during_resets_spec (H : Bytes → Bytes) (stores : Nat → Store) (ops : List (Nat × Bytes))
+    (i k : Nat) (text : Bytes) (prefs : List Bytes) (hl : lastGood i (ops.take k) = some text) :
+    ∃ ans, hashesLoads (List.replicate prefs.length (storeAt H stores ops k i))
+        (List.replicate prefs.length (storeAt H stores ops k i)) prefs = some ans ∧
+      (∀ x, x ∈ ans ↔ ∃ n ∈ listed text, H n = x ∧ (H n).take 2 ∈ prefs) ∧
+      (∀ x, ans.count x = prefs.count (x.take 2) * (listed text).countP (fun n => H n == x)) := by
+  refine ⟨_, hashesLoads_snapshot _ prefs, ?_, ?_⟩
+  · intro x
+    unfold storeAt
+    rw [history_last_reset, hl]
+    exact hashes_build H (listed text) prefs x
+  · intro x
+    unfold storeAt
+    rw [history_last_reset, hl]
+    exact hashes_count H (listed text) prefs x
+
+/-- The same for `Matches`, which looks the map up once (`loadHashSuffixes`, Tie
+`matches_loads_src`): the verdict is that of the version in force at that moment. -/
+theorem matches_during_resets_spec (H : Bytes → Bytes) (hH : Injective H) (stores : Nat → Store)
+    (ops : List (Nat × Bytes)) (i k : Nat) (text host : Bytes) (hl : lastGood i (ops.take k) = some text) :
+    «matches» H (storeAt H stores ops k i) host = true ↔ host ∈ listed text := by
+  unfold storeAt
+  rw [history_last_reset, hl]
+  simp only [«matches»]
+  rw [matchesSum_build]
+  constructor
+  · rintro ⟨n, hn, he⟩; exact hH n host he ▸ hn
+  · intro hm; exact ⟨host, hm, rfl⟩
+
+/-- Two versions of a list for the counter-examples below (`H` = identity): prefixes `[1,2]` and
+`[5,6]`, two names against one under the first. -/
+def verA : Store := build (fun x => x) [[1, 2, 3], [1, 2, 4], [5, 6, 7]]
+def verB : Store := build (fun x => x) [[1, 2, 9], [5, 6, 8]]
+
+/-- Why the single load matters (the seeded change `hashes-reloads-map-per-prefix` and its
+siblings): let a reset from `verA` to `verB` land between the counting and the encoding loop, and
+the cut panics; let it land inside the encoding loop, and the answer is a mixture that is the
+answer of neither version. -/
+theorem hashes_reload_counterexample :
+    hashesLoads [verA, verA] [verB, verB] [[1, 2], [5, 6]] = none ∧
+    hashesLoads [verA, verA] [verA, verB] [[1, 2], [5, 6]] = some [[1, 2, 3], [1, 2, 4], [5, 6, 8]] ∧
+    hashes verA [[1, 2], [5, 6]] = [[1, 2, 3], [1, 2, 4], [5, 6, 7]] ∧
+    hashes verB [[1, 2], [5, 6]] = [[1, 2, 9], [5, 6, 8]] ∧
+    hashesLoads [verB, verB] [verA, verA] [[1, 2], [5, 6]] = some [[1, 2, 3], [1, 2, 4]] := by decide
+
 /-! ### The two defects of the unchanged tree (fixed by a7f0f3a and 693a9d2) -/
 
 def wfPiece (p : Bytes) : Bool := (p.length == 4 || p.length == 8) && p.all isHex
@@ -605,6 +669,8 @@ example : lastGood 0 [(0, [97]), (1, [98]), (0, [99])] = some [99] := by decide
 example : hashes (reset (fun x => x) Store.empty [97, 98, 99, 10, 97, 98, 99, 10]).1 [[97, 98]] =
     [[97, 98, 99], [97, 98, 99]] := by decide
 /-- A name in the declarative sense: `c` from the last, unterminated line `c\r`. -/
+example : lastGood 0 ([(0, [97, 10]), (0, [98, 10]), (1, [99])].take 2) = some [98, 10] := by decide
+example : storeAt (fun x => x) (fun _ => Store.empty) [(0, [1, 2, 3, 10]), (0, [1, 2, 4, 10])] 1 0 [1, 2] = [[3]] := by decide
 example : IsName [97, 10, 35, 98, 13, 10, 10, 99, 13] [99] :=
   ⟨by decide, by decide, [99, 13], ⟨by decide, [97, 10, 35, 98, 13, 10, 10], [], by decide,
     Or.inr ⟨[97, 10, 35, 98, 13, 10], by decide⟩, Or.inl rfl⟩, by decide⟩
@@ -660,6 +726,10 @@ example : (newStorage (fun x => x) [97, 10, 35, 98, 10]).2 = some 1 := by decide
 #print axioms filter_verdict_spec
 #print axioms empty_never_filters
 #print axioms newStorage_spec
+#print axioms hashesLoads_snapshot
+#print axioms hashes_during_resets_spec
+#print axioms matches_during_resets_spec
+#print axioms hashes_reload_counterexample
 #print axioms legacy_tail_counterexample
 #print axioms private_suffix_counterexample
 #print axioms nested_private_counterexample
